@@ -14,7 +14,7 @@
 //!       text   : - | hexcp:cluster[,...]
 //!       k=v    : fstr=<hex of comma separated feature strings, parsed by Feature::from_str>  ppem=<n>  ptem=<n>  var=tag8hex:<float>[,..]  nfvs=<gid>  mode=plan|shape  rep=<n> (repeat via recycled buffer)
 //!   reply: ok <n> gid:cluster:flags:xa:ya:xo:yo ...      (flags from serialize(GLYPH_FLAGS), i.e. public)
-use crate::ops::util::hex_bytes;
+use super::util::hex_bytes;
 use crate::State;
 use rustybuzz::ttf_parser::Tag;
 use rustybuzz::{
@@ -271,6 +271,8 @@ pub fn shape_req(st: &State, r: &Req) -> Option<String> {
     }
     Some(last)
 }
+
+pub const CMDS: &[&str] = &["font", "fontfile", "fontdrop", "prefilter", "shape"];
 
 pub fn handle(toks: &[&str], st: &mut State) -> Option<String> {
     match toks[0] {
